@@ -1,5 +1,6 @@
 SPECIFICATION TraceSpec
 CONSTANTS
+  PipeNames <- AllNames
   MaxTraits = 2
   MaxMembers = 3
   AnyOrder = TRUE
